@@ -135,4 +135,8 @@ def hessian(poly: PolyLike) -> ndpoly:
                      [0, 0, 2*q0]]])
 
     """
-    return gradient(gradient(poly))
+    poly = numpoly.aspolynomial(poly)
+    # keep every indeterminant of `poly` in the gradient, also when unused names
+    # are not retained, so that the result has one row/column for each of them.
+    grad, _ = numpoly.align_indeterminants(gradient(poly), poly.indeterminants)
+    return gradient(grad)
